@@ -7,6 +7,7 @@ in between.  Does NOT decide order effects inside one live solver instance.
 """
 from sa.core import rule, AnalysisError
 from sa import cxx
+from rules import _cxxutil_c07c08 as U
 
 TECHNIQUE = ("static analysis over clang's type-resolved AST: effect "
              "extraction (field writes), interprocedural must-dataflow "
@@ -339,15 +340,28 @@ def r8_4(ctx):
   inv = ix.fn(INV)
   resets = []
 
+  def drops(ev):
+    """solver_.reset() / solver_.reset(nullptr) / solver_ = nullptr"""
+    how = (ev.extra or {}).get("how")
+    if how not in ("reset", "operator="):
+      return False
+    args = [cxx.strip(a) for a in cxx.inner(ev.node)[1:]]
+    if how == "operator=":
+      args = args[1:]     # CXXOperatorCallExpr: [callee, object, value]
+    return all(a is None or a.get("kind") in ("CXXDefaultArgExpr", "CXXNullPtrLiteralExpr")
+               for a in args)
+
   def transfer(ev, st):
-    if ev.kind == "write" and ev.what == "Program::solver_" and \
-        (ev.extra or {}).get("how") in ("reset", "operator=") and not ev.cond:
-      return st | {"reset"}
+    if ev.kind == "write" and ev.what == "Program::solver_" and not ev.cond:
+      return st | {"reset"} if drops(ev) else st - {"reset"}
     return st
   fl = cxx.CxxFlow(ix, inv, transfer)
-  ok = all(s is not None and "reset" in s for _, _, s in fl.exits)
+  nothing_to_drop = _null_solver_returns(ix, inv)
+  ok = all(s is not None and ("reset" in s or (k == "return" and id(n) in nothing_to_drop))
+           for k, n, s in fl.exits)
   ctx.check(ok, "InvalidateSolver:resets-on-every-path", inv.file, inv.line,
-            "Program::InvalidateSolver must drop solver_ on every path")
+            "Program::InvalidateSolver must drop solver_ on every path",
+            {"exits": [(k, sorted(s or []), id(n) in nothing_to_drop) for k, n, s in fl.exits]})
   # readers of solver_: only GetSolver, InvalidateSolver, CalculateMetrics,
   # and the test-only accessor solver(), which nothing outside tests calls
   allowed = {QUERY, INV, "Program::CalculateMetrics()", "Program::solver()"}
@@ -370,16 +384,178 @@ def r8_4(ctx):
             "a Solver* obtained without GetSolver may be stale", {"callers": callers})
 
 
-def _trie_walk(ix, fn):
+def _const_cond(ix, cond, consts):
+  """Value of a condition over constant-bound bool parameters, else None."""
+  from sa.cxx import term, uncast
+  t = uncast(term(ix, cond))
+
+  def ev(t):
+    t = uncast(t)
+    if not isinstance(t, tuple) or not t:
+      return None
+    if t[0] == "var" and t[2] in consts:
+      return consts[t[2]]
+    if t[0] == "bool":
+      return t[1]
+    if t[0] == "!":
+      v = ev(t[1])
+      return None if v is None else not v
+    if t[0] in ("&&", "||"):
+      a, b = ev(t[1]), ev(t[2])
+      if t[0] == "&&":
+        if a is False or b is False:
+          return False
+        return True if a is True and b is True else None
+      if a is True or b is True:
+        return True
+      return False if a is False and b is False else None
+    return None
+  return ev(t)
+
+
+def _pruned(ix, n, consts):
+  """walk(n) that enters only the taken branch of an `if` whose condition is
+  decided by the constant-bound parameters."""
+  from sa.cxx import inner
+  yield n
+  if n.get("kind") == "IfStmt" and consts:
+    _, _, cond, then, els = U.if_parts(n)
+    v = _const_cond(ix, cond, consts)
+    if v is not None:
+      taken = then if v else els
+      if taken is not None:
+        yield from _pruned(ix, taken, consts)
+      return
+  if n.get("kind") == "LambdaExpr":
+    return
+  for c in inner(n):
+    if c.get("kind"):
+      yield from _pruned(ix, c, consts)
+
+
+def _null_mapped_to_miss(ix, fn, holder):
+  """In `fn`, the pointer `holder` returned by the walk helper is tested for
+  nullptr before any other use and a null pointer is answered by a miss."""
+  from sa.cxx import term, uncast, inner
+  hv = ("var", holder.get("name"), holder["id"])
+  seen_decl = False
+  for s in U.stmts(fn.body):
+    if not seen_decl:
+      seen_decl = any(x is holder for x in cxx.walk(s))
+      continue
+    if s.get("kind") == "IfStmt":
+      _, _, cond, then, els = U.if_parts(s)
+      ds = U.flatten(uncast(term(ix, cond)), "||")
+      null_test = any(
+          d == ("!", hv) or (isinstance(d, tuple) and d[0] == "==" and
+                             {uncast(d[1]), uncast(d[2])} == {hv, ("nullptr",)})
+          for d in ds)
+      # the null test must be the first disjunct (evaluated before any deref)
+      first = ds[0] if ds else None
+      first_ok = first == ("!", hv) or (isinstance(first, tuple) and first[0] == "==" and
+                                        {uncast(first[1]), uncast(first[2])} == {hv, ("nullptr",)})
+      rets = [x for x in U.stmts(then) if x.get("kind") == "ReturnStmt"]
+      miss = bool(rets) and U.leaves(then) and any(
+          x.get("kind") == "CXXNullPtrLiteralExpr" for x in cxx.walk(rets[-1]))
+      if null_test and first_ok and miss:
+        return True
+    # any other statement that mentions the holder before the test: give up
+    if any(x.get("kind") == "DeclRefExpr" and
+           (x.get("referencedDecl") or {}).get("id") == holder["id"]
+           for x in cxx.walk(s)):
+      return False
+  return False
+
+
+def _null_solver_returns(ix, fn):
+  """ids of the `return;` statements of InvalidateSolver that are the whole
+  body of a guard clause taken only when solver_ is null (`if (!solver_)
+  return;`, or the else-branch of `if (solver_)`): there is nothing to drop
+  on that path.  Only a branch consisting of the bare return qualifies, so
+  nothing can have created a solver between the test and the exit."""
+  from sa.cxx import term, uncast
+  fld = ("field", "Program::solver_", ("this",))
+
+  def truthy(t):
+    t = uncast(t)
+    if t == fld or t == ("mcall", "operator bool", fld) or t == ("mcall", "get", fld):
+      return True
+    if isinstance(t, tuple) and t[0] in ("!=", "opcall") and ("nullptr",) in [uncast(x) for x in t[1:]]:
+      ops = [uncast(x) for x in t[1:] if uncast(x) != ("nullptr",)]
+      if t[0] == "!=" or (t[0] == "opcall" and t[1] == "operator!="):
+        return any(truthy(o) for o in ops if isinstance(o, tuple))
+    return False
+
+  def is_null_test(t):
+    t = uncast(t)
+    if isinstance(t, tuple) and t[0] == "!" and truthy(t[1]):
+      return True
+    if isinstance(t, tuple) and ("nullptr",) in [uncast(x) for x in t[1:]]:
+      ops = [uncast(x) for x in t[1:] if uncast(x) != ("nullptr",)]
+      if t[0] == "==" or (t[0] == "opcall" and t[1] == "operator=="):
+        return any(truthy(o) for o in ops if isinstance(o, tuple))
+    return False
+  out = set()
+  for n in cxx.walk(fn.body):
+    if n.get("kind") != "IfStmt":
+      continue
+    init, var, cond, then, els = U.if_parts(n)
+    if init is not None or var is not None:
+      continue
+    c = uncast(term(ix, cond))
+    branch = then if is_null_test(c) else els if truthy(c) else None
+    st = U.stmts(branch) if branch is not None else []
+    if len(st) == 1 and st[0].get("kind") == "ReturnStmt" and U.return_value(st[0]) is None:
+      out.add(id(st[0]))
+  return out
+
+
+def _trie_walk(ix, fn, lookup=False):
   """Facts about how a PathCacheTrie method walks the trie: root key, the
-  per-level key, and what happens when a child is missing."""
+  per-level key, and what happens when a child is missing.  The walk may be
+  written in the method itself or in one private helper of the class that
+  both methods share; a bool parameter of the helper that the method binds
+  to a literal is evaluated (only the taken branches are looked at)."""
   from sa.cxx import term, uncast, inner, strip
   facts = {}
-  params = {p["id"]: p.get("name") for p in fn.params}
   pnames = [p.get("name") for p in fn.params]
+  own = {p["id"]: p.get("name") for p in fn.params}
+  host, consts, names, holder = fn, {}, {p.get("name"): p.get("name") for p in fn.params}, None
+  loops = [n for n in cxx.walk(fn.body) if n.get("kind") == "CXXForRangeStmt"]
+  if not loops:
+    cands = []
+    for n in cxx.walk(fn.body):
+      if n.get("kind") == "CXXMemberCallExpr":
+        h = U.local_callee(ix, n)
+        if h is not None and h.cls == fn.cls and h.key != fn.key and any(
+            x.get("kind") == "CXXForRangeStmt" for x in cxx.walk(h.body)):
+          cands.append((n, h))
+    if len(cands) != 1:
+      raise AnalysisError(f"{fn.key}: expected one loop over the blocked set")
+    call, host = cands[0]
+    names = {}
+    for p, a in zip(host.params, inner(call)[1:]):
+      t = uncast(term(ix, a))
+      if isinstance(t, tuple) and t[0] == "var" and t[2] in own:
+        names[p.get("name")] = own[t[2]]
+      elif isinstance(t, tuple) and t[0] == "bool":
+        consts[p["id"]] = t[1]
+      else:
+        raise AnalysisError(f"{fn.key}: argument {t} of {host.name} not understood")
+    for d in cxx.walk(fn.body):
+      if d.get("kind") == "VarDecl" and any(x is call for x in cxx.walk(d)):
+        holder = d
+    if holder is None:
+      raise AnalysisError(f"{fn.key}: result of {host.name} is not bound to a local")
+    facts["walk_in"] = host.name
+    facts["consts"] = sorted(str(v) for v in consts.values())
+    loops = [n for n in _pruned(ix, host.body, consts) if n.get("kind") == "CXXForRangeStmt"]
+  if len(loops) != 1:
+    raise AnalysisError(f"{fn.key}: expected one loop over the blocked set")
+  nm = lambda v: names.get(v, f"<{host.name}>.{v}")
   # root: &root_[start][finish]
-  for n in cxx.walk(fn.body):
-    if n.get("kind") == "VarDecl" and inner(n):
+  for n in _pruned(ix, host.body, consts):
+    if n.get("kind") == "VarDecl" and inner(n) and n.get("init"):
       t = term(ix, inner(n)[-1])
       ts = str(t)
       if "PathCacheTrie::root_" in ts and "index" in ts:
@@ -389,45 +565,56 @@ def _trie_walk(ix, fn):
           cur = uncast(cur[1])
         while isinstance(cur, tuple) and cur[0] == "index":
           k = uncast(cur[2])
-          keys.append(k[1] if isinstance(k, tuple) and k[0] == "var" else str(k))
+          keys.append(nm(k[1]) if isinstance(k, tuple) and k[0] == "var" else str(k))
           cur = uncast(cur[1])
         facts["root_keys"] = list(reversed(keys))
-  loops = [n for n in cxx.walk(fn.body) if n.get("kind") == "CXXForRangeStmt"]
-  if len(loops) != 1:
-    raise AnalysisError(f"{fn.key}: expected one loop over the blocked set")
-  kids = inner(loops[0])
-  rng = None
-  for c in kids[:-1]:
-    if c.get("kind") == "DeclStmt" and inner(c) and inner(c)[0].get("name", "").startswith("__range"):
-      rng = uncast(term(ix, inner(inner(c)[0])[-1]))
-  facts["loop_over"] = rng[1] if isinstance(rng, tuple) and rng[0] == "var" else str(rng)
-  lv = inner(kids[-2])[0]
-  body = kids[-1]
-  # child lookup key
-  for n in cxx.walk(body):
+  lv, rng_e, body = U.range_for(loops[0])
+  rng = uncast(term(ix, rng_e)) if rng_e is not None else None
+  facts["loop_over"] = nm(rng[1]) if isinstance(rng, tuple) and rng[0] == "var" else str(rng)
+  lvt = ("var", lv.get("name"), lv["id"])
+
+  def key_of(e):
+    k = uncast(term(ix, e))
+    return ("id-of-loop-var" if isinstance(k, tuple) and k[0] == "mcall"
+            and "CFGNode::id" in str(k[1]) and uncast(k[2]) == lvt else str(k))
+  # child lookups: find(key) or children[key]
+  keys = []
+  subscripts = []
+  for n in _pruned(ix, body, consts):
     if n.get("kind") == "CXXMemberCallExpr" and ix.callee(n)[2] == "find":
-      k = uncast(term(ix, inner(n)[1]))
-      facts["child_key"] = ("id-of-loop-var" if isinstance(k, tuple) and k[0] == "mcall"
-                            and "CFGNode::id" in str(k[1]) and uncast(k[2]) == ("var", lv.get("name"), lv["id"])
-                            else str(k))
+      keys.append(key_of(inner(n)[1]))
+    if n.get("kind") == "CXXOperatorCallExpr" and ix.callee(n)[2] == "operator[]" and \
+        len(inner(n)) == 3:
+      ot = cxx.qual_type(strip(inner(n)[1]) or {})
+      if "map" in ot and "TrieNode" in ot:
+        keys.append(key_of(inner(n)[2]))
+        subscripts.append(n)
+    if n.get("kind") == "CXXMemberCallExpr" and \
+        ix.callee(n)[2] in ("insert", "emplace", "try_emplace"):
+      ids = [x for x in cxx.walk(n) if x.get("kind") == "CXXMemberCallExpr"
+             and (ix.callee(x)[0] or "").startswith("CFGNode::id")]
+      if ids:
+        keys.append(key_of(ids[0]))
+  if keys:
+    bad = [k for k in keys if k != "id-of-loop-var"]
+    facts["child_key"] = bad[0] if bad else "id-of-loop-var"
   # the missing-child branch
   miss_if = None
-  for n in cxx.walk(body):
+  for n in _pruned(ix, body, consts):
     if n.get("kind") == "IfStmt":
-      parts = list(inner(n))
-      cond = uncast(term(ix, parts[0]))
+      _, _, c_e, then, els = U.if_parts(n)
+      cond = uncast(term(ix, c_e))
       if isinstance(cond, tuple) and cond[0] == "opcall" and cond[1] == "operator==" and "end" in str(cond):
-        then = parts[1]
         miss_if = n
-        kinds = [x.get("kind") for x in cxx.walk(then)]
+        sub = list(_pruned(ix, then, consts))
+        kinds = [x.get("kind") for x in sub]
         if "ReturnStmt" in kinds:
-          ret = [x for x in cxx.walk(then) if x.get("kind") == "ReturnStmt"][0]
-          txt = str(term(ix, inner(ret)[0])) if inner(ret) else ""
+          ret = [x for x in sub if x.get("kind") == "ReturnStmt"][0]
           lits = [x for x in cxx.walk(ret) if x.get("kind") in ("CXXBoolLiteralExpr", "CXXNullPtrLiteralExpr")]
           facts["missing_child"] = "return-miss" if any(
               x.get("kind") == "CXXNullPtrLiteralExpr" for x in lits) else "return-other"
         elif any(x.get("kind") == "CXXMemberCallExpr" and ix.callee(x)[2] in ("insert", "emplace", "try_emplace")
-                 for x in cxx.walk(then)):
+                 for x in sub):
           facts["missing_child"] = "create"
         elif "BreakStmt" in kinds:
           facts["missing_child"] = "break"
@@ -435,15 +622,49 @@ def _trie_walk(ix, fn):
           facts["missing_child"] = "continue"
         else:
           facts["missing_child"] = "other"
+  if miss_if is None and subscripts:
+    # children[key] creates the (null) entry; `if (!child) child = make_unique`
+    # fills it: find-or-insert
+    facts["lookup"] = "operator[]"
+    refs = [d for d in _pruned(ix, body, consts) if d.get("kind") == "VarDecl"
+            and cxx.qual_type(d).rstrip().endswith("&")
+            and any(x is subscripts[0] for x in cxx.walk(d))]
+    filled = False
+    if len(subscripts) == 1 and refs:
+      rv = ("var", refs[0].get("name"), refs[0]["id"])
+      for n in _pruned(ix, body, consts):
+        if n.get("kind") == "IfStmt":
+          _, _, c_e, then, els = U.if_parts(n)
+          c = uncast(term(ix, c_e))
+          is_null = (isinstance(c, tuple) and c[0] == "!" and rv in (
+              uncast(c[1]), uncast(uncast(c[1])[2]) if isinstance(uncast(c[1]), tuple)
+              and uncast(c[1])[0] == "mcall" and uncast(c[1])[1] == "operator bool" else None)) or \
+              (isinstance(c, tuple) and c[0] == "opcall" and c[1] == "operator==" and
+               rv in (uncast(c[2]), uncast(c[3])) and ("nullptr",) in (uncast(c[2]), uncast(c[3])))
+          assigns = any(
+              x.get("kind") == "CXXOperatorCallExpr" and ix.callee(x)[2] == "operator=" and
+              uncast(term(ix, inner(x)[1])) == rv and "make_unique" in str(term(ix, inner(x)[2]))
+              for x in cxx.walk(then))
+          if is_null and assigns:
+            filled = True
+            miss_if = n
+    facts["missing_child"] = "create" if filled else "other"
   # any other way of leaving an iteration early means a blocked node that
   # does not contribute a trie level
   inside = set()
   if miss_if is not None:
     inside = {id(x) for x in cxx.walk(miss_if)}
-  skips = [x for x in cxx.walk(body) if x.get("kind") in ("BreakStmt", "ContinueStmt", "ReturnStmt", "GotoStmt")
+  skips = [x for x in _pruned(ix, body, consts)
+           if x.get("kind") in ("BreakStmt", "ContinueStmt", "ReturnStmt", "GotoStmt")
            and id(x) not in inside]
   facts["level_skipped_at_lines"] = sorted(
       ((x.get("range") or {}).get("begin") or {}).get("line") or 0 for x in skips)
+  if lookup and holder is not None and facts.get("missing_child") == "return-miss":
+    if not _null_mapped_to_miss(ix, fn, holder):
+      raise AnalysisError(
+          f"{fn.key}: {host.name} reports a missing child by returning nullptr, "
+          "but the caller does not test the pointer first and answer a miss")
+    facts["null_answered_by_miss"] = True
   return facts, pnames
 
 
@@ -461,7 +682,10 @@ def r8_5(ctx):
   ins = ix.find("internal::PathCacheTrie::InsertResult")[0]
   get = ix.find("internal::PathCacheTrie::GetResult")[0]
   fi, pi = _trie_walk(ix, ins)
-  fg, pg = _trie_walk(ix, get)
+  fg, pg = _trie_walk(ix, get, lookup=True)
+  if fg.get("lookup") == "operator[]":
+    raise AnalysisError("GetResult looks children up with operator[] (which "
+                        "creates them): idiom not understood")
   for name, f, pn in (("InsertResult", fi, pi), ("GetResult", fg, pg)):
     ok = f.get("root_keys") == pn[:2] and f.get("loop_over") == pn[2] and \
         f.get("child_key") == "id-of-loop-var"
@@ -491,6 +715,125 @@ def r8_5(ctx):
 
 def _tg(name):
   return f"pytype/typegraph/{name}"
+
+
+
+# -- texts used by the refactored-shape variants ---------------------------------
+_INS_OLD = (
+    "    bool path_exists, std::deque<const CFGNode*> result_path) {\n"
+    "  TrieNode* current_trie_node = &root_[start][finish];\n"
+    "  std::unordered_map<CFGNode::IdType, std::unique_ptr<TrieNode>>*\n"
+    "      current_children = &current_trie_node->children;\n\n"
+    "  for (const CFGNode* node : blocked) {\n"
+    "    auto it = current_children->find(node->id());\n"
+    "    if (it == current_children->end()) {\n"
+    "      auto inserted =\n"
+    "          current_children->insert({node->id(), std::make_unique<TrieNode>()});\n"
+    "      current_trie_node = inserted.first->second.get();\n"
+    "      current_children = &current_trie_node->children;\n"
+    "      continue;\n"
+    "    }\n"
+    "    current_trie_node = it->second.get();\n"
+    "    current_children = &it->second->children;\n"
+    "  }\n"
+    "  current_trie_node->path = std::move(result_path);\n")
+_GET_OLD = (
+    "                                     const CFGNodeSet& blocked) {\n"
+    "  TrieNode* current_trie_node = &root_[start][finish];\n"
+    "  std::unordered_map<CFGNode::IdType, std::unique_ptr<TrieNode>>*\n"
+    "      current_children = &current_trie_node->children;\n\n"
+    "  for (const CFGNode* node : blocked) {\n"
+    "    auto it = current_children->find(node->id());\n"
+    "    if (it == current_children->end()) {\n"
+    "      return {false, nullptr};\n"
+    "    }\n"
+    "    current_trie_node = it->second.get();\n"
+    "    current_children = &it->second->children;\n"
+    "  }\n\n"
+    "  if (current_trie_node->path.has_value()) {\n")
+_MISS = "      if (!create_missing) {\n        return nullptr;\n      }\n"
+_NULL_TEST = "  if (current_trie_node == nullptr) {\n    return {false, nullptr};\n  }\n"
+
+
+def _shared_walk(miss=_MISS, null_test=_NULL_TEST, ins_flag="true", get_flag="false",
+                 key="node->id()"):
+  """InsertResult and GetResult share PathCacheTrie::FindTrieNode(create_missing)."""
+  return [
+      (_tg("solver.h"), "      root_;\n",
+       "      root_;\n  TrieNode* FindTrieNode(const CFGNode* start, const CFGNode* finish,\n"
+       "                         const CFGNodeSet& blocked, bool create_missing);\n"),
+      (_tg("solver.cc"), "QueryResult PathCacheTrie::InsertResult(\n",
+       "TrieNode* PathCacheTrie::FindTrieNode(const CFGNode* start,\n"
+       "                                      const CFGNode* finish,\n"
+       "                                      const CFGNodeSet& blocked,\n"
+       "                                      bool create_missing) {\n"
+       "  TrieNode* trie_node = &root_[start][finish];\n"
+       "  for (const CFGNode* node : blocked) {\n"
+       "    auto& children = trie_node->children;\n"
+       f"    auto it = children.find({key});\n"
+       "    if (it == children.end()) {\n" + miss +
+       f"      it = children.insert({{{key}, std::make_unique<TrieNode>()}}).first;\n"
+       "    }\n"
+       "    trie_node = it->second.get();\n"
+       "  }\n"
+       "  return trie_node;\n}\n\n"
+       "QueryResult PathCacheTrie::InsertResult(\n"),
+      (_tg("solver.cc"), _INS_OLD,
+       "    bool path_exists, std::deque<const CFGNode*> result_path) {\n"
+       "  TrieNode* current_trie_node =\n"
+       f"      FindTrieNode(start, finish, blocked, /*create_missing=*/{ins_flag});\n"
+       "  current_trie_node->path = std::move(result_path);\n"),
+      (_tg("solver.cc"), _GET_OLD,
+       "                                     const CFGNodeSet& blocked) {\n"
+       "  TrieNode* current_trie_node =\n"
+       f"      FindTrieNode(start, finish, blocked, /*create_missing=*/{get_flag});\n"
+       + null_test +
+       "  if (current_trie_node->path.has_value()) {\n"),
+  ]
+
+
+def _subscript_insert(key="node->id()", fill="    if (!child) {\n      child = std::make_unique<TrieNode>();\n    }\n"):
+  """InsertResult written as find-or-insert with operator[] (no children alias)."""
+  return [(_tg("solver.cc"), _INS_OLD,
+           "    bool path_exists, std::deque<const CFGNode*> result_path) {\n"
+           "  TrieNode* current_trie_node = &root_[start][finish];\n\n"
+           "  for (const CFGNode* node : blocked) {\n"
+           f"    std::unique_ptr<TrieNode>& child = current_trie_node->children[{key}];\n"
+           + fill +
+           "    current_trie_node = child.get();\n"
+           "  }\n"
+           "  current_trie_node->path = std::move(result_path);\n")]
+
+
+_ADDORIGIN_VEC = ("Origin* Binding::AddOrigin(CFGNode* node,\n"
+                  "                           const std::vector<Binding*>& source_set) {\n"
+                  "  program_->InvalidateSolver();\n"
+                  "  Origin* origin = FindOrAddOrigin(node);\n")
+_ADDORIGIN_SET = ("Origin* Binding::AddOrigin(CFGNode* node, const SourceSet& source_set) {\n"
+                  "  program_->InvalidateSolver();\n"
+                  "  Origin* origin = FindOrAddOrigin(node);\n")
+_INVALIDATE = ("  if (solver_) {\n"
+               "    solver_metrics_.push_back(solver_->CalculateMetrics());\n"
+               "  }\n"
+               "  solver_.reset();\n")
+
+
+def _delegating_addorigin(base_invalidates=True):
+  """The AddOrigin(node, source_set) overloads delegate to AddOrigin(node)."""
+  out = [
+      (_tg("typegraph.cc"), _ADDORIGIN_VEC,
+       "Origin* Binding::AddOrigin(CFGNode* node,\n"
+       "                           const std::vector<Binding*>& source_set) {\n"
+       "  Origin* origin = AddOrigin(node);\n"),
+      (_tg("typegraph.cc"), _ADDORIGIN_SET,
+       "Origin* Binding::AddOrigin(CFGNode* node, const SourceSet& source_set) {\n"
+       "  Origin* origin = AddOrigin(node);\n"),
+  ]
+  if not base_invalidates:
+    out.append((_tg("typegraph.cc"),
+                "Origin* Binding::AddOrigin(CFGNode* node) {\n  program_->InvalidateSolver();\n",
+                "Origin* Binding::AddOrigin(CFGNode* node) {\n"))
+  return out
 
 
 VARIANTS = [
@@ -543,4 +886,58 @@ VARIANTS = [
      "old": "                                     const CFGNodeSet& blocked) {\n  TrieNode* current_trie_node = &root_[start][finish];",
      "new": "                                     const CFGNodeSet& blocked) {\n  TrieNode* current_trie_node = &root_[finish][finish];"},
     {"name": "seeded-C08-r2m2-key-drops-later-nodes", "rule": "R8.5", "patch": "seeded/C08-r2m2/patch.diff", "expect": "fire"},
+    # -- refactored shapes: must-silent twins and the same defects in the new shape
+    {"name": "twin-benign-C07-r2-trie-without-alias", "rule": "R8.5",
+     "patch": "benign/C07-r2/patch.diff", "expect": "silent"},
+    {"name": "twin-benign-C08-r1-shared-trie-walk", "rule": "R8.5",
+     "patch": "benign/C08-r1/patch.diff", "expect": "silent"},
+    {"name": "twin-benign-C08-r3-invalidation-deduplicated", "rule": "R8.3",
+     "patch": "benign/C08-r3/patch.diff", "expect": "silent"},
+    {"name": "twin-benign-C08-r4-set-condition-moved", "rule": "R8.3",
+     "patch": "benign/C08-r4/patch.diff", "expect": "silent"},
+    {"name": "twin-shared-walk-helper", "rule": "R8.5", "expect": "silent", "edits": _shared_walk()},
+    {"name": "shared-walk-miss-returns-prefix-node", "rule": "R8.5", "expect": "fire",
+     "edits": _shared_walk(miss="      if (!create_missing) {\n        return trie_node;\n      }\n")},
+    {"name": "shared-walk-miss-breaks", "rule": "R8.5", "expect": "fire",
+     "edits": _shared_walk(miss="      if (!create_missing) {\n        break;\n      }\n")},
+    {"name": "shared-walk-insert-does-not-create", "rule": "R8.5", "expect": "fire",
+     "edits": _shared_walk(ins_flag="false")},
+    {"name": "shared-walk-keyed-by-start", "rule": "R8.5", "expect": "fire",
+     "edits": _shared_walk(key="start->id()")},
+    {"name": "shared-walk-null-not-tested", "rule": "R8.5", "expect": "error",
+     "edits": _shared_walk(null_test="")},
+    {"name": "shared-walk-null-answered-by-hit", "rule": "R8.5", "expect": "error",
+     "edits": _shared_walk(null_test="  if (current_trie_node == nullptr) {\n    current_trie_node = &root_[start][finish];\n  }\n")},
+    {"name": "twin-insert-with-subscript", "rule": "R8.5", "expect": "silent", "edits": _subscript_insert()},
+    {"name": "insert-with-subscript-keyed-by-finish", "rule": "R8.5", "expect": "fire",
+     "edits": _subscript_insert(key="finish->id()")},
+    {"name": "insert-with-subscript-skips-high-ids", "rule": "R8.5", "expect": "fire",
+     "edits": _subscript_insert(fill="    if (node->id() > start->id()) break;\n"
+                                     "    if (!child) {\n      child = std::make_unique<TrieNode>();\n    }\n")},
+    {"name": "twin-addorigin-overloads-delegate", "rule": "R8.3", "expect": "silent",
+     "edits": _delegating_addorigin()},
+    {"name": "addorigin-overloads-delegate-base-not-invalidating", "rule": "R8.3", "expect": "fire",
+     "edits": _delegating_addorigin(base_invalidates=False)},
+    {"name": "twin-invalidate-early-return-when-no-solver", "rule": "R8.4", "file": _tg("typegraph.cc"),
+     "expect": "silent", "old": _INVALIDATE,
+     "new": "  if (!solver_) {\n    return;\n  }\n"
+            "  solver_metrics_.push_back(solver_->CalculateMetrics());\n  solver_.reset();\n"},
+    {"name": "twin-invalidate-early-return-nullptr-compare", "rule": "R8.4", "file": _tg("typegraph.cc"),
+     "expect": "silent", "old": _INVALIDATE,
+     "new": "  if (solver_ == nullptr) return;\n"
+            "  solver_metrics_.push_back(solver_->CalculateMetrics());\n  solver_.reset();\n"},
+    {"name": "invalidate-early-return-when-solver-present", "rule": "R8.4", "file": _tg("typegraph.cc"),
+     "expect": "fire", "old": _INVALIDATE,
+     "new": "  if (solver_) {\n    solver_metrics_.push_back(solver_->CalculateMetrics());\n    return;\n  }\n"
+            "  solver_.reset();\n"},
+    {"name": "invalidate-early-return-on-unrelated-test", "rule": "R8.4", "file": _tg("typegraph.cc"),
+     "expect": "fire", "old": _INVALIDATE,
+     "new": "  if (solver_metrics_.empty()) {\n    return;\n  }\n"
+            "  if (solver_) solver_metrics_.push_back(solver_->CalculateMetrics());\n  solver_.reset();\n"},
+    {"name": "invalidate-early-return-after-recreating", "rule": "R8.4", "file": _tg("typegraph.cc"),
+     "expect": "fire", "old": _INVALIDATE,
+     "new": "  if (!solver_) {\n    solver_ = std::make_unique<Solver>(this);\n    return;\n  }\n"
+            "  solver_metrics_.push_back(solver_->CalculateMetrics());\n  solver_.reset();\n"},
+    {"name": "invalidate-resets-to-new-solver", "rule": "R8.4", "file": _tg("typegraph.cc"),
+     "expect": "fire", "old": "  solver_.reset();\n", "new": "  solver_.reset(new Solver(this));\n"},
 ]
